@@ -3,6 +3,7 @@ package assign
 import (
 	"fmt"
 	"math"
+	"math/bits"
 
 	"github.com/pkg/errors"
 	"github.com/ysugimoto/falco/v2/interpreter/value"
@@ -19,7 +20,8 @@ func LeftRotate(left, right value.Value) error {
 	}
 	lv := value.Unwrap[*value.Integer](left)
 	rv := value.Unwrap[*value.Integer](right)
-	v := (lv.Value << rv.Value) | (lv.Value >> (64 - rv.Value))
+	// Rotate the 64-bit pattern, any count is taken modulo 64 (a negative count rotates the other way)
+	v := int64(bits.RotateLeft64(uint64(lv.Value), int(rv.Value%64)))
 	if int64(v) > int64(math.MaxInt64) {
 		lv.Value = 0
 		lv.IsPositiveInf = true
@@ -40,7 +42,8 @@ func RightRotate(left, right value.Value) error {
 	}
 	lv := value.Unwrap[*value.Integer](left)
 	rv := value.Unwrap[*value.Integer](right)
-	v := (lv.Value >> rv.Value) | (lv.Value << (64 - rv.Value))
+	// Rotate the 64-bit pattern, any count is taken modulo 64 (a negative count rotates the other way)
+	v := int64(bits.RotateLeft64(uint64(lv.Value), -int(rv.Value%64)))
 	if int64(v) > int64(math.MaxInt64) {
 		lv.Value = 0
 		lv.IsPositiveInf = true
